@@ -6,5 +6,7 @@ out="${f%.v}.out"
 timeout 600 coqc "$@" > "$out" 2>&1
 rc=$?
 [ $rc -eq 124 ] && echo "Error: coqc timed out after 600 s on $f" >> "$out"
+# a failed compilation must not leave an older .vo behind (it would be taken for a proof of the new source)
+[ $rc -ne 0 ] && rm -f "${f%.v}.vo" "${f%.v}.vos" "${f%.v}.vok" "${f%.v}.glob"
 cat "$out"
 exit $rc
